@@ -1,4 +1,4 @@
-(* C14 - Push-down hints offered to storage back-ends never lose required data. Statements without references.
+(* C14 - Push-down hints offered to storage back-ends never lose required data.
    PARTIAL: proved are (a) the factorisation rules - every factor offered for a table is a necessary condition of the
    predicate it was derived from and mentions that table only, (b) the offered row filter admits the table's row of every
    row combination that satisfies the where-clause and the registered join conditions (exactly the contributing rows of
@@ -18,9 +18,9 @@ Proof. exact factor_single_table. Qed.
 Print Assumptions C14_factor_single_table.
 
 Theorem C14_filter_safe_partial : forall src pre t e,
-  (forall p, In p (filter_clauses src pre) -> elem_free p = true /\ holds e p = true) ->
+  (forall p, In p (filter_clauses src pre) -> holds e p = true) ->
   offered_factors t src pre <> [] -> admits (offered_factors t src pre) t (env_get (false, t) e) = true.
-Proof. exact offered_filter_safe. Qed.
+Proof. exact offered_filter_safe_refs. Qed.
 Print Assumptions C14_filter_safe_partial.
 
 Theorem C14_columns_cover_partial : forall t src sel pre grp post ord c f,
